@@ -165,7 +165,10 @@ long _ftol2(double dValue) {return _ftol(dValue);}
                              (type >= CGNS_ENUMV(BAR_4) && \
                               type <= CGNS_ENUMV(HEXA_125)))
 
-#define CHECK_FILE_OPEN if (cg == NULL || cg->mode == CG_MODE_CLOSED) {\
+/* The node-context functions act on the file of the current position,
+ * whatever file the last library call addressed */
+#define CHECK_FILE_OPEN if (posit != 0) cg = cgi_get_file(posit_file);\
+if (cg == NULL || cg->mode == CG_MODE_CLOSED) {\
     cgi_error("no current CGNS file open");\
     return CG_ERROR;\
 }
